@@ -390,6 +390,14 @@ impl World {
         }
         let n = |i: usize| -> i64 { t.get(i).and_then(|x| x.parse::<i64>().ok()).unwrap_or(0) };
         let u = |i: usize| -> usize { n(i) as usize };
+        // an op on a writer / reader that does not exist (its creation was refused)
+        let needs_writer = ["en", "reg", "lk", "d", "u", "w", "wfa", "pm", "ms", "delW", "hist"];
+        let needs_reader = ["t", "r", "th", "tr", "sm", "delR"];
+        if (needs_writer.contains(&t[0]) && u(1) >= self.writers.len())
+            || (needs_reader.contains(&t[0]) && u(1) >= self.readers.len())
+        {
+            return format!("{} NOENT", t[0]);
+        }
         match t[0] {
             "cfg" => {
                 let m = kv(&t[1..]);
